@@ -40,28 +40,33 @@ def product_ob(d1, d2, F):
         tail = (F,) if F else ()
         b1, b2 = arr("b1", (n1, d1) + tail), arr("b2", (n2, d2) + tail)
         outs = ex.call_function("make_cartesian_product", [b1, b2])
-        (o,) = outs
+        outs = [o for o in outs if o.kind == "return"]
+        if not outs:
+            raise pyvc.Unsupported("make_cartesian_product: no normal return")
+        for o in outs:          # one outcome per path the code distinguishes (e.g. a size threshold)
+            out = o.value
+            pre = [n1 >= 1, n2 >= 1, i_ >= 0, i_ < n1, j_ >= 0, j_ < n2, c_ >= 0, c_ < d1 + d2] + ([f_ >= 0, f_ < F] if F else [])
+            ft = (f_,) if F else ()
+            row = i_ * n2 + j_
+            expect = z3.If(c_ < d1, b1.elem(i_, c_, *ft), b2.elem(j_, c_ - d1, *ft))
+            goals = {
+                "shape": z3.And(zint(out.shape[0]) == n1 * n2, zint(out.shape[1]) == d1 + d2, *( [zint(out.shape[2]) == F] if F else [])),
+                "rows": out.elem(row, c_, *ft) == expect,
+            }
+            hints = [(i_ * n2 + j_) / n2 == i_, (i_ * n2 + j_) % n2 == j_]
+            for nm, g in goals.items():
+                st, model = prove(g, pre + list(o.pc), timeout_ms=20000)
+                if st == "unknown":
+                    # div/mod facts proved separately (lemma below) and then used as hints
+                    st, model = prove(g, pre + list(o.pc) + hints, timeout_ms=20000)
+                if st != "unsat":
+                    return fail(name + "." + nm, st, model)
+            for nm, pc_, g in ex.obligations:
+                st, model = prove(g, pre + list(pc_), timeout_ms=10000)
+                if st != "unsat":
+                    return fail(name + ".side:" + nm, st, model)
+        o = outs[0]
         out = o.value
-        pre = [n1 >= 1, n2 >= 1, i_ >= 0, i_ < n1, j_ >= 0, j_ < n2, c_ >= 0, c_ < d1 + d2] + ([f_ >= 0, f_ < F] if F else [])
-        ft = (f_,) if F else ()
-        row = i_ * n2 + j_
-        expect = z3.If(c_ < d1, b1.elem(i_, c_, *ft), b2.elem(j_, c_ - d1, *ft))
-        goals = {
-            "shape": z3.And(zint(out.shape[0]) == n1 * n2, zint(out.shape[1]) == d1 + d2, *( [zint(out.shape[2]) == F] if F else [])),
-            "rows": out.elem(row, c_, *ft) == expect,
-        }
-        hints = [(i_ * n2 + j_) / n2 == i_, (i_ * n2 + j_) % n2 == j_]
-        for nm, g in goals.items():
-            st, model = prove(g, pre + list(o.pc), timeout_ms=20000)
-            if st == "unknown":
-                # div/mod facts proved separately (lemma below) and then used as hints
-                st, model = prove(g, pre + list(o.pc) + hints, timeout_ms=20000)
-            if st != "unsat":
-                return fail(name + "." + nm, st, model)
-        for nm, pc_, g in ex.obligations:
-            st, model = prove(g, pre + list(pc_), timeout_ms=10000)
-            if st != "unsat":
-                return fail(name + ".side:" + nm, st, model)
         # vacuity canary: space-major order must be refuted
         wrong = z3.If(c_ < d1, b1.elem(j_, c_, *ft), b2.elem(i_, c_ - d1, *ft))
         cst, _ = prove(out.elem(row, c_, *ft) == wrong, pre + list(o.pc) + [n1 == n2], timeout_ms=10000)
@@ -87,7 +92,7 @@ def native_get_batch():
     from jinns.data._DataGenerators import CubicMeshPDENonStatio
     msgs = []
     for dim, cart, tb, ob, bb in [(1, False, 3, 3, None), (2, False, 2, 2, 2), (1, True, 2, 3, 1), (2, True, 3, 2, 2),
-                                  (1, 0, 3, 3, None), (2, np.False_, 2, 2, 2), (2, False, 3, 3, 3)]:
+                                  (1, 0, 3, 3, None), (2, np.False_, 2, 2, 2), (2, False, 3, 3, 3), (1, True, 4, 4, 1), (2, True, 4, 5, 2)]:
         g = CubicMeshPDENonStatio(key=jax.random.PRNGKey(4), n=6, nb=(8 if dim == 2 else 2), nt=6, omega_batch_size=ob,
                                   omega_border_batch_size=(bb if dim == 2 else 1), temporal_batch_size=tb, dim=dim,
                                   min_pts=(0.0,) * dim, max_pts=(1.0,) * dim, tmin=5.0, tmax=6.0, cartesian_product=cart)
@@ -102,6 +107,11 @@ def native_get_batch():
                 exp = np.concatenate([t[:, None], x], axis=1)
             if tx.shape != exp.shape or not np.allclose(tx, exp):
                 msgs.append(f"dim={dim}, cartesian={cart}: interior batch of shape {tx.shape}, expected the {'product' if cart else 'row-wise pairing'} of shape {exp.shape}")
+                return msgs
+            if cart and len(np.unique(np.round(tx, 9), axis=0)) != len(tx):
+                # the factors are windows of distinct stored points, so every pair appears exactly once
+                msgs.append(f"dim={dim}, cartesian product, nt=6, temporal batch size {tb}, call {call}: the interior batch has {len(tx)} rows but only "
+                            f"{len(np.unique(np.round(tx, 9), axis=0))} distinct (t, x) pairs (times of the batch: {np.round(t, 4).tolist()})")
                 return msgs
             nbr = dx.shape[0]
             if cart or dim == 1:
@@ -124,8 +134,10 @@ def native_product(vals):
     import numpy as np
     import jax.numpy as jnp
     from jinns.data._DataGenerators import make_cartesian_product
-    try:
-        a, b = min(max(int(vals.get("n1", 2)), 1), 6), min(max(int(vals.get("n2", 3)), 1), 6)
+    try:      # the solver's sizes, as far as they can be run (products up to 2**18 rows)
+        a, b = max(int(vals.get("n1", 2)), 1), max(int(vals.get("n2", 3)), 1)
+        while a * b > 2 ** 18:
+            a, b = (max(a // 2, 1), b) if a >= b else (a, max(b // 2, 1))
     except Exception:
         a, b = 2, 3
     msgs = []
@@ -133,9 +145,13 @@ def native_product(vals):
         b1 = jnp.arange(a, dtype=float)[:, None] + 100.0
         b2 = jnp.arange(b, dtype=float)[:, None]
         out = np.asarray(make_cartesian_product(b1, b2))
-        exp = np.array([[100.0 + i, float(j)] for i in range(a) for j in range(b)])
-        if out.shape != exp.shape or not np.array_equal(out, exp):
-            msgs.append(f"make_cartesian_product(n1={a}, n2={b}) = {out.tolist()} expected {exp.tolist()}")
+        exp = np.stack([np.repeat(100.0 + np.arange(a), b), np.tile(np.arange(b, dtype=float), a)], axis=1)
+        if out.shape != exp.shape:
+            msgs.append(f"make_cartesian_product(n1={a}, n2={b}) has shape {out.shape}, expected {exp.shape}")
+            break
+        if not np.array_equal(out, exp):
+            r = int(np.argmax((out != exp).any(axis=1)))
+            msgs.append(f"make_cartesian_product(n1={a}, n2={b}): row {r} is {out[r].tolist()}, expected (b1[{r // b}], b2[{r % b}]) = {exp[r].tolist()}")
             break
     return msgs or None
 
@@ -240,4 +256,14 @@ def obligations(tier):
                 obs.append(get_batch_ob(dim, cart, border))
         obs.append(get_batch_ob(dim, False, True, flag=0))
         obs.append(get_batch_ob(dim, True, True, flag=1))
+    # "one temporal batch", "one spatial batch": each factor is a window of batch-size distinct rows of its store (the
+    # C09 contract of the three consumers, reported under C14)
+    from contracts import c09
+    for which in ("CubicMeshPDENonStatio.temporal_batch", "CubicMeshPDEStatio.inside_batch[dim=2]", "CubicMeshPDEStatio.border_batch"):
+        try:
+            o = c09.consumer_ob(which, False, "batch_is_window_of_store")
+        except Exception:
+            continue
+        o.name = o.name.replace("C09/", "C14/factor/")
+        obs.append(o)
     return obs
